@@ -11,8 +11,8 @@ The model mirrors the case analysis of the source *as it is*, including
   when it left `[0, Nx)`;
 * `SquareLattice.site2index` returns the site unchanged in open directions (also outside the lattice);
 * `RectangularUnitcell` lists its unique sites in Python tuple order (row-major), not in fermionic order;
-* `TriangularLattice(full_patch=True)` stores `_bonds_d` as a *list* (so `bonds()` = tuple + list raises
-  `TypeError`) and lists diagonal bonds with `None` end points on finite lattices;
+* `TriangularLattice(full_patch=True)` lists a diagonal bond `(nn_site(s,'b'), nn_site(s,'r'))` only when both
+  neighbours exist (like h/v bonds); `bonds()` is `h + v + d`;
 * `Lattice.__setitem__` on a site whose index is not a key creates a new key.
 
 Assumption of the model: `Nx, Ny ≥ 1` wherever a modulo is taken (Python raises `ZeroDivisionError`
@@ -22,8 +22,6 @@ namespace YModel.Geo
 
 abbrev Site := Int × Int
 abbrev Bond := Site × Site
-/-- bonds whose end points may be `None` (`TriangularLattice._bonds_d` on finite lattices) -/
-abbrev OBond := Option Site × Option Site
 
 /-- per-direction boundary rule: `'i'` infinite, `'o'` open, `'p'` periodic -/
 inductive Bc | i | o | p
@@ -252,10 +250,13 @@ def triBondsD3 : List Bond := [((1, 0), (0, 1)), ((1, 1), (0, 2)), ((1, 2), (0, 
 def Tri.sites (t : Tri) : List Site := if t.full then t.base.sites else triSites3
 def Tri.bondsH (t : Tri) : List Bond := if t.full then t.base.bondsH else triBondsH3
 def Tri.bondsV (t : Tri) : List Bond := if t.full then t.base.bondsV else triBondsV3
-/-- `_bonds_d`: for `full_patch` it is `Bond(nn_site(s,'b'), nn_site(s,'r'))` for every site, without a `None` test -/
-def Tri.bondsD (t : Tri) : List OBond :=
-  if t.full then t.base.sites.map fun s => (t.base.nnSite s Dir.b.vec, t.base.nnSite s Dir.r.vec)
-  else triBondsD3.map fun b => (some b.1, some b.2)
+/-- `_bonds_d`: for `full_patch` it is `Bond(nn_site(s,'b'), nn_site(s,'r'))` for every site where both neighbours exist -/
+def Tri.bondsD (t : Tri) : List Bond :=
+  if t.full then t.base.sites.filterMap fun s =>
+    match t.base.nnSite s Dir.r.vec, t.base.nnSite s Dir.b.vec with
+    | some sr, some sb => some (sb, sr)
+    | _, _ => none
+  else triBondsD3
 
 def Tri.index (t : Tri) (s : Site) : Int :=
   if t.full then (s.1 % (t.base.Nx : Int)) * t.base.Ny + s.2 % (t.base.Ny : Int)
@@ -313,25 +314,22 @@ def Geom.site2index (G : Geom) (s : Site) : Except String Index :=
     | none => .error "KeyError"
   | .tri t => .ok (.lab (t.index s))
 
-def liftBond (b : Bond) : OBond := (some b.1, some b.2)
-
 /-- `bonds(dirn, reverse)`.  `dirn` is `some "h"`, `some "v"`, `some "d"` or anything else (treated like `None`).
-`.error "TypeError"`: `TriangularLattice(full_patch=True)` concatenates tuples with a list. -/
-def Geom.bonds (G : Geom) (dirn : Option String) (reverse : Bool) : Except String (List OBond) :=
-  let rev (l : List OBond) := if reverse then l.reverse else l
-  let h := G.bondsH.map liftBond
-  let v := G.bondsV.map liftBond
+`SquareLattice.bonds` knows only `'h'`/`'v'` (so `'d'` falls through to all bonds); `TriangularLattice.bonds` adds `'d'`. -/
+def Geom.bonds (G : Geom) (dirn : Option String) (reverse : Bool) : List Bond :=
+  let rev (l : List Bond) := if reverse then l.reverse else l
+  let h := G.bondsH
+  let v := G.bondsV
   match G with
   | .tri t =>
-    if dirn = some "d" then .ok (rev t.bondsD)
-    else if dirn = some "v" then .ok (rev v)
-    else if dirn = some "h" then .ok (rev h)
-    else if t.full then .error "TypeError"
-    else .ok (if reverse then t.bondsD.reverse ++ v.reverse ++ h.reverse else h ++ v ++ t.bondsD)
+    if dirn = some "d" then rev t.bondsD
+    else if dirn = some "v" then rev v
+    else if dirn = some "h" then rev h
+    else if reverse then t.bondsD.reverse ++ v.reverse ++ h.reverse else h ++ v ++ t.bondsD
   | _ =>
-    if dirn = some "v" then .ok (rev v)
-    else if dirn = some "h" then .ok (rev h)
-    else .ok (if reverse then v.reverse ++ h.reverse else h ++ v)
+    if dirn = some "v" then rev v
+    else if dirn = some "h" then rev h
+    else if reverse then v.reverse ++ h.reverse else h ++ v
 
 /-! ### Lattice container -/
 
